@@ -328,3 +328,13 @@ Definition lift_host (mhost : nat -> list Z -> option (option Z)) : unit -> nat 
          | Some _, None => Some (None, None)
          | None, _ => None
          end).
+
+(** a host that charges energy for every call (the engine's [ReceiveHost]: host functions tick
+    [host.energy] and fail with out-of-energy); the energy is part of the host state *)
+Definition metered_host {H : Type} (cost : hquery -> N)
+           (hc : H -> nat -> hquery -> H * option (heffect * hresponse))
+  : (N * H) -> nat -> hquery -> (N * H) * option (heffect * hresponse) :=
+  fun eh n q =>
+    let (e, h) := eh in
+    if (e <? cost q)%N then ((0%N, h), None)
+    else let (h', r) := hc h n q in ((e - cost q)%N, h', r).
